@@ -401,7 +401,10 @@ def wicks(expr, rules: Rules = None, simplify_kronecker_deltas: bool = False):
             result = _contract_operator_string(op_string)
             result = (Mul(*c_part) * result).expand()
             if simplify_kronecker_deltas:
-                result = evaluate_deltas(result)
+                # the new indices introduced by contractions of two general
+                # indices must not be mistaken for target indices
+                target = Expr(expr).terms[0].target
+                result = evaluate_deltas(result, target_idx=target)
     else:  # neither add, Mul, NO or Operator -> maybe a number or a tensor
         return expr
 
